@@ -218,9 +218,9 @@ impl Ep {
     pub fn genuine(&self, tpl: &str) -> Option<Vec<u8>> {
         let base = tpl.strip_prefix("tcp.").unwrap_or(tpl);
         let mut inner = match base {
-            "channeldata" | "turn.channeldata" => templates::channeldata(0x4000, &templates::stun("stun.binding_req")),
-            "stun_data_ind" | "stun.data_ind" => data_indication(&templates::stun("stun.binding_req")),
-            "stun_binding_req" => templates::stun("stun.binding_req"),
+            "channeldata" | "turn.channeldata" => templates::channeldata(0x4000, &super::ice::check_for(&self.ice)),
+            "stun_data_ind" | "stun.data_ind" => data_indication(&super::ice::check_for(&self.ice)),
+            "stun_binding_req" => super::ice::check_for(&self.ice),
             other => templates::genuine(other)?,
         };
         if let Some(txid) = &self.pending_txid {
@@ -253,7 +253,7 @@ impl Ep {
             }
             "est" => {
                 // sentinel: a relayed STUN binding request; the endpoint answers it through the relay
-                let sentinel = data_indication(&templates::stun("stun.binding_req"));
+                let sentinel = data_indication(&super::ice::check_for(&self.ice));
                 self.server.send(&sentinel, false).await;
                 let Ep { task, server, .. } = self;
                 let mut answered = false;
